@@ -11,7 +11,21 @@ import (
 	"hzcheck/esp"
 )
 
-func init() { register("C19", c19Pair, c19Stages) }
+func init() { register("C19", c19Pair, c19Stages, c19Fresh) }
+
+// C19.fresh — the stage events a finish reports are this request's own: the per-request reset
+// the serve loop calls between two requests of a connection clears the trace statistics.
+func c19Fresh(e *Env) {
+	resetObligations(e, "C19.fresh", func(tg resetTarget, field string) bool {
+		switch {
+		case tg.Typ == "RequestContext" && tg.Meth == "ResetWithoutConn":
+			return field == "" || field == "traceInfo"
+		case tg.Typ == "httpStats" && tg.Meth == "Reset":
+			return true
+		}
+		return false
+	})
+}
 
 const (
 	pkgTracer = Mod + "/pkg/common/tracer"
